@@ -138,6 +138,13 @@ func fixedH2C(fns []string) func() []caseH2C {
 				for _, post := range []int{0, 1, 64} {
 					out = append(out, caseH2C{Fn: fn, Msg: hex.EncodeToString([]byte("abc")), Dst: hex.EncodeToString(bytes.Repeat([]byte{'D'}, dl)), DstLay: gen.Layout{Post: post}})
 				}
+				// the spare capacity behind the DST (and behind the message) already holds what a length-suffixed copy would hold
+				for _, fill := range []int{1, 2, 3, 4} {
+					for _, post := range []int{1, 2, 7} {
+						out = append(out, caseH2C{Fn: fn, Msg: hex.EncodeToString([]byte("abc")), Dst: hex.EncodeToString(bytes.Repeat([]byte{'D'}, dl)),
+							DstLay: gen.Layout{Post: post, Fill: fill}, MsgLay: gen.Layout{Post: post, Fill: fill}})
+					}
+				}
 			}
 			for _, ml := range []int{4096, 65535, 65536, 100000} {
 				long := make([]byte, ml)
@@ -200,6 +207,7 @@ func runH2C(c caseH2C, o *gen.Obs) error {
 	o.ClassIf(len(dstData) == 256, "dst=256")
 	o.ClassIf(len(dstData) < 16, "dst<16")
 	o.ClassIf(c.DstLay.Post > 0, "dst-spare-capacity")
+	o.ClassIf(c.DstLay.Post > 0 && c.DstLay.Fill == 2, "dst-followed-by-its-length")
 	o.ClassIf(len(msgData) == 0, "msg-empty")
 	o.ClassIf(len(msgData) > 64, "msg>1block")
 	var want []byte
@@ -267,6 +275,33 @@ type h2cStep struct {
 	Fn  string `json:"fn"`
 	Msg string `json:"msg"`
 	Dst string `json:"dst"`
+	// MsgLen > 0: the message is MsgLen bytes of a fixed pattern instead of Msg (messages of megabytes: what a call with a
+	// very large input leaves behind - grown scratch buffers, pool entries dropped or kept - must not reach the next call).
+	MsgLen int `json:"msg_len,omitempty"`
+}
+
+func (st h2cStep) message() []byte {
+	if st.MsgLen == 0 {
+		return gen.HexBytes(st.Msg)
+	}
+	m := make([]byte, st.MsgLen)
+	for i := range m {
+		m[i] = byte(i*31 + st.MsgLen)
+	}
+	return m
+}
+
+// hugeSequences are fixed cases: a call with a message of 1 MiB + 1, 3 MiB, 16 MiB + 3 bytes followed by ordinary calls.
+func hugeSequences(fns []string) []caseH2CSeq {
+	var out []caseH2CSeq
+	d16, d300 := hex.EncodeToString(bytes.Repeat([]byte{'d'}, 16)), hex.EncodeToString(bytes.Repeat([]byte{'D'}, 300))
+	for i, n := range []int{1<<20 + 1, 3 << 20, 1<<24 + 3, 1 << 16, 200000} {
+		fn := fns[i%len(fns)]
+		fn2 := fns[(i+1)%len(fns)]
+		out = append(out, caseH2CSeq{Steps: []h2cStep{{Fn: fn, Dst: d16, MsgLen: n}, {Fn: fn, Msg: "616263", Dst: d16}, {Fn: fn2, Msg: "", Dst: d300},
+			{Fn: fn2, Msg: hex.EncodeToString(bytes.Repeat([]byte{'m'}, 100)), Dst: d16}, {Fn: fn, Dst: d300, MsgLen: n / 2}, {Fn: fn, Msg: "00", Dst: d16}}, GC: i%2 == 1})
+	}
+	return out
 }
 
 type caseH2CSeq struct {
@@ -310,15 +345,16 @@ func runH2CSeq(c caseH2CSeq, o *gen.Obs) error {
 		if l := len(st.Dst) / 2; l > maxD {
 			maxD = l
 		}
-		if l := len(st.Msg) / 2; l > maxM {
+		if l := max(len(st.Msg)/2, st.MsgLen); l > maxM {
 			maxM = l
 		}
+		o.ClassIf(st.MsgLen >= 1<<20, "huge-message")
 	}
 	dstBuf, msgBuf := make([]byte, maxD+c.Spare), make([]byte, maxM+c.Spare)
 	oversize, inplace := 0, 0
 	prevLen := -1
 	for i, st := range c.Steps {
-		msgData, dstData := gen.HexBytes(st.Msg), gen.HexBytes(st.Dst)
+		msgData, dstData := st.message(), gen.HexBytes(st.Dst)
 		if len(dstData) == 0 {
 			continue
 		}
@@ -364,7 +400,8 @@ var c08seq = gen.Register(&gen.Check[caseH2CSeq]{
 	Weight:   0.25,
 	Gen:      genH2CSeq([]string{"ro", "nu"}),
 	Run:      runH2CSeq,
-	Required: []string{"oversize-dst-twice", "same-length-overwrite"},
+	Fixed:    func() []caseH2CSeq { return hugeSequences([]string{"ro", "nu"}) },
+	Required: []string{"oversize-dst-twice", "same-length-overwrite", "huge-message"},
 })
 
 func TestC08Sequence(t *testing.T) { c08seq.Execute(t) }
@@ -374,7 +411,8 @@ var c09seq = gen.Register(&gen.Check[caseH2CSeq]{
 	Weight:   0.25,
 	Gen:      genH2CSeq([]string{"scalar"}),
 	Run:      runH2CSeq,
-	Required: []string{"oversize-dst-twice", "same-length-overwrite"},
+	Fixed:    func() []caseH2CSeq { return hugeSequences([]string{"scalar"}) },
+	Required: []string{"oversize-dst-twice", "same-length-overwrite", "huge-message"},
 })
 
 func TestC09Sequence(t *testing.T) { c09seq.Execute(t) }
